@@ -35,7 +35,7 @@ use crate::{
         fingerprint::data_plane::DpPathFingerprint,
         metadata::{
             geo::GeoCoordinates,
-            link::{LinkMeta, LinkType},
+            link::LinkMeta,
             path_interface::PathInterface,
         },
     },
@@ -517,8 +517,13 @@ impl ScionPath {
                     })
                     .collect();
 
+                // Latency and bandwidth describe the link between interface i and i+1, so there
+                // are N-1 entries for N interfaces (the last interface has no next interface).
+                let link_count = if_meta.len().saturating_sub(1);
+
                 rpc_path.latency = if_meta
                     .iter()
+                    .take(link_count)
                     .map(|latency| {
                         match latency.latency {
                             Some(latency) => {
@@ -542,6 +547,7 @@ impl ScionPath {
 
                 rpc_path.bandwidth = if_meta
                     .iter()
+                    .take(link_count)
                     .map(|meta| meta.bandwidth.unwrap_or(0))
                     .collect();
 
@@ -555,15 +561,37 @@ impl ScionPath {
                     })
                     .collect();
 
+                // One link type per inter-AS link, i.e. for the interfaces at the even indices
+                // (0, 2, 4, ...). Only written if the link type of every inter-AS link is known.
                 rpc_path.link_type = if_meta
                     .iter()
+                    .step_by(2)
                     .map(|meta| {
                         match &meta.link {
-                            Some(LinkMeta::Egress(link_type)) => link_type.to_i32(),
-                            _ => LinkType::Unset.to_i32(),
+                            Some(LinkMeta::Egress(link_type)) => Some(link_type.to_i32()),
+                            _ => None,
                         }
                     })
-                    .collect();
+                    .collect::<Option<Vec<_>>>()
+                    .unwrap_or_default();
+
+                // One internal hop count per fully traversed AS, i.e. for the interfaces at the
+                // odd indices (1, 3, 5, ...) except the last one. Only written if all are known.
+                rpc_path.internal_hops = if_meta
+                    .iter()
+                    .skip(1)
+                    .step_by(2)
+                    .take((if_meta.len() / 2).saturating_sub(1))
+                    .map(|meta| {
+                        match &meta.link {
+                            Some(LinkMeta::Ingress { internal_hop_count }) => {
+                                Some(*internal_hop_count)
+                            }
+                            _ => None,
+                        }
+                    })
+                    .collect::<Option<Vec<_>>>()
+                    .unwrap_or_default();
 
                 // collect notes if available, must be one per AS (total_interfaces / 2 + 1)
                 let expected_count_ases = if_meta.len() / 2 + 1;
